@@ -707,7 +707,10 @@ class IntNStringReceiver(protocol.Protocol, _PauseableMixin):
         # containing all the data we have so far and a separate offset into that
         # buffer.
         alldata = self._unprocessed + data
-        currentOffset = 0
+        # Non-zero only when stringReceived re-entered this method (for
+        # example by calling resumeProducing()): the strings before this
+        # offset have already been delivered by the call in progress.
+        currentOffset = self._compatibilityOffset
         prefixLength = self.prefixLength
         fmt = self.structFormat
         self._unprocessed = alldata
@@ -730,6 +733,11 @@ class IntNStringReceiver(protocol.Protocol, _PauseableMixin):
             currentOffset = messageEnd
             self._compatibilityOffset = currentOffset
             self.stringReceived(packet)
+
+            # stringReceived may have re-entered dataReceived, which then
+            # parsed (and trimmed) the buffer itself: carry on from its state.
+            alldata = self._unprocessed
+            currentOffset = self._compatibilityOffset
 
             # Check to see if the backwards compat "recvd" attribute got written
             # to by application code.  If so, drop the current data buffer and
